@@ -176,6 +176,10 @@ func fsm1(c *Ctx) {
 			why = "non-constant verdict"
 		}
 	}
+	// every transition is tested: an iteration cannot come back to the header around the test
+	if _, scanEntry, _ := loopBody(outerHdr); scanEntry != nil && scanEntry != test.Block() && ir.Reach(scanEntry, map[*ssa.BasicBlock]bool{test.Block(): true}, nil)[outerHdr] {
+		okFalse, why = false, "a transition can be passed over without being tested: a shortcut would survive the simplification"
+	}
 	// leaving the scan early is fine when the scan found a shortcut (search-then-act form)
 	foundBreak := true
 	{
@@ -1602,8 +1606,24 @@ func fsm4merge(c *Ctx, fn *ssa.Function) {
 				}
 			}
 		}
-		c.Check(good, key, mu.Pos(), "receiver."+fname+"[k] = append(receiver."+fname+"[k], other."+fname+"[k]...) for every k: earlier values stay first",
-			"Merge does not append the other context's values after the receiver's for the same key")
+		whyM := "Merge does not append the other context's values after the receiver's for the same key"
+		if good {
+			// for every k: no key of the other context is passed over
+			if kx, isK := mu.Key.(*ssa.Extract); isK {
+				if nx, isNx := kx.Tuple.(*ssa.Next); isNx {
+					hdr := nx.Block()
+					for _, entry := range hdr.Succs {
+						if entry == mu.Block() || !ir.Reach(entry, map[*ssa.BasicBlock]bool{hdr: true}, nil)[mu.Block()] {
+							continue
+						}
+						if ir.Reach(entry, map[*ssa.BasicBlock]bool{mu.Block(): true}, nil)[hdr] {
+							good, whyM = false, "a key of the other context can be passed over: its values are lost when the branch succeeds"
+						}
+					}
+				}
+			}
+		}
+		c.Check(good, key, mu.Pos(), "receiver."+fname+"[k] = append(receiver."+fname+"[k], other."+fname+"[k]...) for every k: earlier values stay first", whyM)
 	})
 	for _, f := range []string{"Args", "Opts"} {
 		if !seen[f] {
@@ -1995,7 +2015,30 @@ func fsm6(c *Ctx) {
 	// the loop over values must be reached for every container: entry of outer body reaches inner header on all paths
 	if innerHdr != nil {
 		okReach := !ir.Reach(outerEntry, map[*ssa.BasicBlock]bool{innerHdr: true}, nil)[outerHdr]
-		c.Check(okReach, key+":every-container", set.Pos(), "every container of the map goes through the value loop", "a container can be skipped without its values being applied")
+		whyR := "a container can be skipped without its values being applied"
+		if okReach {
+			// success is reported only once the map has been gone through (or is empty)
+			cut := map[ir.Edge]bool{}
+			for _, sc := range outerHdr.Succs {
+				if sc != outerEntry {
+					cut[ir.Edge{From: outerHdr, To: sc}] = true
+				}
+			}
+			for _, prm := range fn.Params {
+				if _, isMap := prm.Type().Underlying().(*types.Map); isMap {
+					for _, e := range lenOnlyZeroEdges(fn, prm) {
+						cut[e] = true
+					}
+				}
+			}
+			reach := ir.Reach(fn.Blocks[0], nil, cut)
+			for _, r := range ir.ReturnWays(fn) {
+				if len(r.Results) == 1 && ir.IsNilConst(r.Results[0]) && r.ReachableUnder(reach, cut) {
+					okReach, whyR = false, "nil can be returned before the collected values of every container were applied"
+				}
+			}
+		}
+		c.Check(okReach, key+":every-container", set.Pos(), "every container of the map goes through the value loop", whyR)
 	}
 	// error returned at once
 	okErr := false
